@@ -458,7 +458,14 @@ func c18History(r *rand.Rand, n int) []dop {
 		case 8:
 			ops = append(ops, dop{K: "adv", D: []time.Duration{time.Minute, 2*time.Hour + time.Minute, 4*time.Hour + time.Minute}[r.Intn(3)]})
 		default:
-			ops = append(ops, dop{K: "renew", C: c})
+			switch r.Intn(4) {
+			case 0:
+				ops = append(ops, dop{K: "reboot", C: c})
+			case 1:
+				ops = append(ops, dop{K: "restart", P: r.Intn(2)}) // the server also restarts in the middle of the history
+			default:
+				ops = append(ops, dop{K: "renew", C: c})
+			}
 		}
 	}
 	return ops
@@ -532,6 +539,15 @@ func (d *dhcpRun) restartProbe(s *packet.Session, rec *mon.Recorder, file string
 			c.Viol("lease:restart:reloaded-differs", fmt.Sprintf("file rewritten by the new handler differs\n before: %s\n after:  %s", tripleSet(tr), tripleSet(tr2)), data)
 			return
 		}
+	}
+	// the restarted server then lives on for a while before the clients come back: whatever is still in force after that
+	// time (by the lease times the ACKs promised) must still be renewed, the rest is not probed
+	if age := []time.Duration{0, 0, time.Minute, 2*time.Hour + time.Minute}[d.idx%4]; age > 0 {
+		time.Sleep(age)
+		synctest.Wait()
+		h2.MinuteTicker(time.Now())
+		shadow = m.HeldLeases()
+		c.Obs("restart_probes_after_ageing", 1)
 	}
 	rx := newRx()
 	send := func(cl *dclient, q refdec.DHCPMsg, src netip.Addr) []refdec.DHCPMsg {
